@@ -348,7 +348,7 @@ def _xfilter(accumulator, test_range, condition, operating_range):
     if type_id == 1:
         condition = condition.upper()
 
-    @functools.lru_cache()
+    @functools.lru_cache(typed=True)
     def check(value):
         if _get_type_id(value) != type_id or isinstance(
                 value, XlError) != is_err:
